@@ -78,7 +78,7 @@ Definition model (c : case) : obs :=
            | _ => []
            end)
   | IList t init _ lines => OList (fst (run_list t [] init lines)) true
-  | IProc t pre lines => proc_obs (fst (run_list t (pre_list pre) [] lines))
+  | IProc t pre lines => proc_obs (fst (run_proc t (pre_list pre) lines))
   | IRecipe env cmd _ lines => recipe_obs (list_system env cmd lines)
   | IGen sw out recipe => match gen_method sw out recipe with Some m => OGen 0 m | None => OGen 1 0 end
   end.
@@ -119,7 +119,7 @@ Definition wf (c : case) : bool :=
        | Some its => forallb item_ok its && list_beq beq (map item_render its) lines
        | None => true
        end
-  | IProc t pre lines, OProc _ _ _ => tree_ok t && forallb no_nl lines && negb (snd (run_list t (pre_list pre) [] lines))
+  | IProc t pre lines, OProc _ _ _ => tree_ok t && forallb no_nl lines && negb (snd (run_proc t (pre_list pre) lines))
   | IRecipe env cmd items lines, ORecipe _ _ _ =>
     forallb no_nl lines && env_ok env && recipe_atoms_ok cmd lines && no_uni (rc_atoms cmd)
     && match items with
